@@ -1101,17 +1101,35 @@ jump_handshake(br_ssl_engine_context *cc, int action)
 		}
 		if (hlen_in != cc->hlen_in) {
 			recvpld_ack(cc, hlen_in - cc->hlen_in);
-			if (cc->hlen_in == 0) {
-				/*
-				 * We read all data bytes, which may have
-				 * released the output buffer in case it
-				 * is shared with the input buffer, and
-				 * the handshake code might be waiting for
-				 * that.
-				 */
-				action = 0;
-				continue;
-			}
+
+			/*
+			 * If we read all data bytes, this may have
+			 * released the output buffer in case it is
+			 * shared with the input buffer, and the
+			 * handshake code might be waiting for that.
+			 * If some bytes of the record remain, the
+			 * handshake code may have yielded after a
+			 * complete message (e.g. a renegotiation
+			 * request that it declined) and must still
+			 * see the rest. Either way, run it again;
+			 * each such extra run consumes input, so
+			 * this terminates.
+			 */
+			action = 0;
+			continue;
+		}
+
+		/*
+		 * The handshake code consumed nothing. If part of the
+		 * current record is still unread, then it is waiting
+		 * for room to send a record; with a shared buffer that
+		 * room never comes, because the unread bytes keep the
+		 * buffer in input mode: the peer sent handshake data
+		 * when it was not its turn to talk.
+		 */
+		if (cc->hlen_in != 0 && cc->iomode == BR_IO_IN) {
+			br_ssl_engine_fail(cc, BR_ERR_UNEXPECTED);
+			return;
 		}
 		break;
 	}
